@@ -660,6 +660,30 @@ pub fn drive<C: Check>(o: DriveOpts) -> i32 {
         );
     }
 
+    // a listed open finding which this batch happened not to hit is shown through its committed example:
+    // the example is replayed in a fresh process and the line is printed iff it still fails the same way
+    for (k, kf) in &open_keys {
+        if known_hits.contains_key(k) {
+            continue;
+        }
+        let Some(rp) = &kf.replay else { continue };
+        let path = if rp.starts_with('/') { PathBuf::from(rp) } else { PathBuf::from(VERIF_DIR).join(rp) };
+        if !path.exists() {
+            continue;
+        }
+        let out = Command::new(&exe).arg("replay-inner").arg(C::ID).arg(&path).stdin(Stdio::null()).output();
+        let still = out
+            .ok()
+            .and_then(|o| String::from_utf8_lossy(&o.stdout).lines().find(|l| l.starts_with('{')).and_then(|l| serde_json::from_str::<Value>(l).ok()))
+            .map(|v| v["ok"].as_bool() == Some(false) && v["key"].as_str() == Some(k.as_str()))
+            .unwrap_or(false);
+        if still {
+            println!("KNOWN-FINDING: property={} {} [0 runs of this batch; committed example {} still fails] {}", C::ID, k, rp, kf.what);
+        } else {
+            println!("note: listed finding {} was not hit and its committed example {} no longer fails", k, rp);
+        }
+    }
+
     // ---- report unknown violations: one per distinct class (bounded), minimised and confirmed
     let mut exit = 0;
     let mut reported = 0;
